@@ -180,6 +180,8 @@ PLANS = {
             S("c07_resp", 600, 18000),
             S("c07_conc", 500, 15000),
             S("c07_collect", 1200, 36000),  # one aio, timeout set once, reused for every receive of every survey (scenarios/c07c_collect.cc)
+            S("c07_manyctx", 200, 6000),    # hundreds of surveys whose deadlines fall together
+            S("c07_dblsend", 400, 12000),   # two threads answer one survey on one respondent socket/context
             S("c07_bp", 600, 18000),       # respondent contexts answering behind a busy connection (scenarios/c07b_backpressure.cc)
         ],
         "assumptions": ["sequential scenarios rely on sim_quiesce (horizon 3 ms > largest configured segment latency) to make "
